@@ -198,6 +198,55 @@ def get_trace_ok(repo):
     return False
 
 
+def wiring(funcs):
+    """the integration table (key -> integrate_* method) and, for every general integrate_* wrapper, the pairs it passes through
+    _get_default (in order), the _expectation_* method it multiplies by the total mass and the arguments it hands over (in order)"""
+    if "integration_dict" not in funcs:
+        raise Unsupported("integration_dict not found")
+    dicts = [n for n in ast.walk(funcs["integration_dict"]) if isinstance(n, ast.Dict)]
+    if len(dicts) != 1:
+        raise Unsupported("integration_dict is not one dict literal")
+    table = []
+    for k, v in zip(dicts[0].keys, dicts[0].values):
+        if not (isinstance(k, ast.Constant) and isinstance(k.value, str) and isinstance(v, ast.Attribute) and isinstance(v.value, ast.Name) and v.value.id == "self"):
+            raise Unsupported("integration_dict entry " + ast.unparse(k))
+        table.append((k.value, v.attr))
+    wrappers = []
+    for key, name in table:
+        if not name.startswith("integrate_general"):
+            continue
+        f = funcs.get(name)
+        if f is None:
+            raise Unsupported("wrapper %s not found" % name)
+        body = [b for b in f.body if not (isinstance(b, ast.Expr) and isinstance(b.value, ast.Constant))]
+        defaults = []
+        for st in body[:-2]:
+            ok = (isinstance(st, ast.Assign) and len(st.targets) == 1 and isinstance(st.targets[0], ast.Tuple)
+                  and isinstance(st.value, ast.Call) and ast.unparse(st.value.func) == "self._get_default" and not st.value.keywords
+                  and [ast.unparse(t) for t in st.targets[0].elts] == [ast.unparse(a) for a in st.value.args] and len(st.value.args) == 2)
+            if not ok:
+                raise Unsupported("statement in %s: %s" % (name, ast.unparse(st)[:60]))
+            defaults.append(tuple(ast.unparse(a) for a in st.value.args))
+        if len(body) < 2 or ast.unparse(body[-2]) != "constant = self.integral()" or not isinstance(body[-1], ast.Return):
+            raise Unsupported("wrapper %s does not end with constant = self.integral(); return ..." % name)
+        calls = [n for n in ast.walk(body[-1]) if isinstance(n, ast.Call) and isinstance(n.func, ast.Attribute) and n.func.attr.startswith("_expectation")]
+        if len(calls) != 1 or calls[0].keywords or not all(isinstance(a, ast.Name) for a in calls[0].args):
+            raise Unsupported("wrapper %s: expectation call" % name)
+        ret = body[-1].value
+        # constant * E, constant[:, None(, None)] * E, or einsum("a,a..->a..", constant, E): the mass multiplies every entry of its component
+        form = None
+        if isinstance(ret, ast.BinOp) and isinstance(ret.op, ast.Mult) and ret.right is calls[0] and ast.unparse(ret.left) in ("constant", "constant[:, None]", "constant[:, None, None]"):
+            form = "scale"
+        if isinstance(ret, ast.Call) and ast.unparse(ret.func) == "jnp.einsum" and len(ret.args) == 3 and isinstance(ret.args[0], ast.Constant) \
+                and re.fullmatch(r"a,a(\w*)->a\1", ret.args[0].value.replace(" ", "")) and ast.unparse(ret.args[1]) == "constant" and ret.args[2] is calls[0]:
+            form = "scale"
+        if form is None:
+            raise Unsupported("wrapper %s: the result is not (total mass) * expectation" % name)
+        flat = [x for pr in defaults for x in pr]
+        wrappers.append((key, name, calls[0].func.attr, [a.id for a in calls[0].args], flat))
+    return table, wrappers
+
+
 def translate(repo):
     """returns (coq text, list of translated method names, dict of skipped: reason)"""
     with warnings.catch_warnings():
@@ -255,6 +304,14 @@ def translate(repo):
         out.append("")
         done.append(m)
     out.append("End GenMoments.")
+    table, wrappers = wiring(funcs)
+    cs = lambda x: '"%s"' % x
+    out += ["From Coq Require Import String List.", "Import ListNotations.", "Open Scope string_scope.",
+            "(* the integration table: documented expression -> method *)",
+            "Definition dispatch : list (string * string) := [" + "; ".join("(%s, %s)" % (cs(k), cs(v)) for k, v in table) + "].",
+            "(* general wrappers: (expression, wrapper, expectation it scales by the total mass, arguments handed over, arguments passed through _get_default) *)",
+            "Definition wrappers : list (string * string * string * list string * list string) := [" +
+            "; ".join("(%s, %s, %s, [%s], [%s])" % (cs(k), cs(n), cs(e), "; ".join(cs(a) for a in args), "; ".join(cs(a) for a in dfl)) for k, n, e, args, dfl in wrappers) + "]."]
     return "\n".join(out) + "\n", done
 
 
